@@ -96,4 +96,5 @@ SigmaL == SigmaS \o << <<70, 0, 0, 0, 0, 0, 0, 240, 63>>, <<19, 0, 0, 0, 128, 0,
 SigmaT == << <<20, 1, 97>>, <<20, 1, 98>>, <<20, 1, 99>>, <<16, 5>>, <<65>>, <<64>> >>
 NamesS == {<<97>>, <<98>>, <<>>, <<99>>}
 RootsOA == {"O", "A"}
+RootsO == {"O"}
 =============================================================================
